@@ -44,7 +44,8 @@ func EnableInlining(w *core.World) int {
 	lits := mentionedLiterals()
 	var prefixes []string
 	for l := range lits {
-		if strings.Contains(l, ".") && len(l) >= 16 {
+		// "pkg.Type.namePrefix" (used with HasPrefix on callee keys); a bare "pkg.Type" names a type, not a function
+		if tail := l[strings.LastIndex(l, "/")+1:]; strings.Count(tail, ".") >= 2 && !strings.HasSuffix(l, ".") && len(l) >= 16 {
 			prefixes = append(prefixes, l)
 		}
 	}
